@@ -123,7 +123,7 @@ def from_module(c, key):
         qs = [f"{kw[(j + i) % 2]}::{Q}" for i in range(n)] if vlib.seeded_pick(key + str(j), 9, 2) == 0 else [Q] * n
         if not is_enum and n == 1 and j == 0 and vlib.seeded_pick(key, 19, 2) == 0:
             qs = [["skip", "ignore"][vlib.seeded_pick(key, 23, 2)]]      # type aliases of Q1 named like the variant keywords
-        attr = {"none": "", "from": "#[from] ", "skip": "#[from(skip)] ", "forward": "#[from(forward)] ",
+        attr = {"none": "", "from": "#[from] ", "skip": "#[from(skip)] ", "forward": "#[from(forward)] ", "empty": "#[from()] ",
                 "types": f"#[from({tup(qs)})] "}[v["attr"]]
         if not is_enum and v["attr"] in ("from", "skip"):
             attr = ""
@@ -283,6 +283,8 @@ def into_attr_text(a, typed_target):
         return ""
     if a["k"] == "top":
         return f"#[into({typed_target})] "
+    if a["k"] == "parens0":
+        return "#[into()] "
     parts = []
     for f in ("owned", "ref", "ref_mut"):
         if a[f] == "bare":
